@@ -167,3 +167,25 @@ Theorem plugin_total_saturating caps :
 Proof.
   intros H S. unfold satsum. rewrite plugin_fold_sat; [reflexivity|exact H|unfold max_int; lia|intro; lia].
 Qed.
+
+(* the capacity the manager reports for a node is the plugin's capacity for it *)
+Lemma lookup_map_in (caps : list (string * capinfo)) n (i : fndc) :
+  Merge.lookup n (map (fun nc => (fst nc, ndc_of_cap (snd nc))) caps) = Some i ->
+  exists c, In (n, c) caps /\ i = ndc_of_cap c.
+Proof.
+  induction caps as [|[k c] t IH]; simpl; [discriminate|].
+  destruct (String.eqb n k) eqn:E.
+  - apply String.eqb_eq in E. subst. intro H. injection H as <-. exists c. auto.
+  - intro H. destruct (IH H) as [c' [I E']]. exists c'. auto.
+Qed.
+
+Theorem manager_reports_plugin_capacity (caps : list (string * capinfo)) n (i : fndc) :
+  Merge.lookup n (fst (manager_capacity caps)) = Some i ->
+  exists c, In (n, c) caps /\ 0 < cap_capacity c /\ n_cap i = cap_capacity c.
+Proof.
+  unfold manager_capacity. rewrite aggregate_f64 by discriminate. simpl.
+  destruct (Merge.lookup n (map (fun nc => (fst nc, ndc_of_cap (snd nc))) (plugin_offered caps))) as [i1|] eqn:L; [|discriminate].
+  intro H. injection H as <-. destruct (lookup_map_in _ _ _ L) as [c [I E]]. subst i1.
+  unfold plugin_offered in I. apply filter_In in I. destruct I as [I P]. simpl in P. apply Z.ltb_lt in P.
+  exists c. split; [exact I|]. split; [exact P|]. reflexivity.
+Qed.
